@@ -1,11 +1,12 @@
 import LexVerif.Model.ParseIntFormat
 import LexVerif.Proof.ParseIntMain
 /-!
-# Proof.ParseIntFormatSimple — the format-feature integer model on formats without separator / suffix
+# Proof.ParseIntFormatSimple — the format-feature integer model on formats without integer separators / suffix
 
-For a release build and a format without digit-separator byte, without integer separator flags and without base
-suffix (`Simple`), every digit loop of `Model.ParseIntFormat` is the corresponding loop of `Model.ParseInt`
-(the model of the build WITHOUT the `format` feature) run on `as_slice()`.
+For a release build and a format without integer separator flags and without base suffix (`Simple`; the digit-separator
+byte and the fraction / exponent separator flags are arbitrary), every digit loop of `Model.ParseIntFormat` is the
+corresponding loop of `Model.ParseInt` (the model of the build WITHOUT the `format` feature) run on `as_slice()`,
+whatever the iterator's `integer_count` is (the multi-digit blocks change it, nothing reads it).
 -/
 namespace LexVerif.Proof.PIF
 open LexVerif LexVerif.Spec LexVerif.Model LexVerif.Model.ParseIntFormat
@@ -20,11 +21,13 @@ def ofM : ParseInt.MRes → Res
   | .done (.invalidNegativeSign i) => err "InvalidNegativeSign" i
   | .fault => .error (.fault "unchecked")
 
-/-- release build; no separator byte, no integer separator flags, no base suffix -/
+/-- release build; no integer separator flags (= contiguous integer iterator), no base suffix. The digit-separator
+byte and the separator flags of the fraction / exponent are ARBITRARY: since repo fix 12a2453 a contiguous component
+iterator counts by its cursor also when the buffer is non-contiguous, so nothing in the integer parser looks at the
+separator byte (a separator byte in the input is an ordinary non-digit). -/
 structure Simple (c : Cfg) : Prop where
   hf : c.feats.format = true
   hd : c.debug = false
-  sep : c.fmt.digitSeparator = 0
   flags : c.sepFlags .integer = SepFlags.none
   suf : c.fmt.baseSuffix = 0
 
@@ -32,9 +35,6 @@ variable {c : Cfg}
 
 theorem Simple.contig (h : Simple c) : c.iterContiguous .integer = true := by
   simp [Cfg.iterContiguous, h.flags, SepFlags.none, SepFlags.any]
-
-theorem Simple.bytesContig (h : Simple c) : c.bytesContiguous = true := by
-  simp [Cfg.bytesContiguous, Cfg.digitSeparator, h.hf, h.sep]
 
 theorem Simple.skip (h : Simple c) : c.skip .integer = .noskip := by
   simp [Cfg.skip, h.flags, SepFlags.none, SepFlags.skip]
@@ -46,7 +46,12 @@ theorem Simple.peek (h : Simple c) (b : Bytes) : peek c .integer b = .ok (b.slc[
   simp [Model.peek, h.skip]
 
 theorem Simple.count (h : Simple c) (b : Bytes) : b.iterCount c .integer = b.index := by
-  simp [Bytes.iterCount, h.contig, Bytes.currentCount, h.bytesContig]
+  simp [Bytes.iterCount, h.contig]
+
+/-- `integer_count` is invisible to a contiguous integer iterator (repo fix 12a2453): see `Model.ParseIntFormat.multiLoop` -/
+theorem iterCount_ic_irrelevant (c : Cfg) (h : c.iterContiguous .integer = true) (b : Bytes) (x : Nat) :
+    ({ b with ic := x } : Bytes).iterCount c .integer = b.iterCount c .integer := by
+  simp [Bytes.iterCount, h]
 
 theorem Simple.iterNext (h : Simple c) (b : Bytes) :
     iterNext c .integer b =
@@ -167,8 +172,8 @@ theorem multiLoop_simple (e : Env) (hs : Simple e.c) (sub : Bool) (b : Bytes) (v
          else .ok (b.asSlice, value, b.index)
        match multi with
        | .error m => .error (ofM m)
-       | .ok (_, value, cursor) => .ok ({ b with index := cursor }, value)) := by
-  simp only [multiLoop, Env.contig, hs.contig, hs.hd, Bool.true_and, Bool.false_and, if_false]
+       | .ok (_, value, cursor) => .ok ({ b with index := cursor, ic := b.ic + (cursor - b.index) }, value)) := by
+  simp only [multiLoop, Env.contig, hs.contig, hs.hd, hs.hf, Bool.true_and, Bool.false_and, if_false, if_true]
   by_cases h8 : (ParseInt.canMulti e.c.feats e.radix && !e.noMulti && decide (e.t.bits ≥ 64) && decide (b.bufferLength ≥ 8)) = true
   · simp only [h8, Bool.true_or, if_true]
     cases hl : ParseInt.loop8 e.t e.radix sub b.asSlice value b.index with
@@ -204,15 +209,17 @@ theorem loop4_ok (t : IntTy) (r : Nat) (sub : Bool) (rest : List Nat) (v cur : N
   | case3 => simp only [Except.ok.injEq, Prod.mk.injEq] at h; exact ⟨0, by omega, by simp [h.1], by omega⟩
   | case4 => simp only [Except.ok.injEq, Prod.mk.injEq] at h; exact ⟨0, by omega, by simp [h.1], by omega⟩
 
+/-- `x` = the `integer_count` the multi-digit blocks leave behind (`b.ic + 8·blocks`, `Model.ParseIntFormat.multiLoop`) -/
 theorem parseDigitsUnchecked_simple (e : Env) (hs : Simple e.c) (sub isEnd : Bool) (start : Nat) (b : Bytes)
     (value : Nat) :
-    parseDigitsUnchecked e sub isEnd start b value =
-      conv b (ParseInt.parseDigitsUnchecked e.t e.radix e.c.feats e.partial_ e.noMulti sub b.asSlice b.index
-        b.bufferLength value) := by
-  have tail : ∀ (rest' : List Nat) (v' cur' : Nat), (∃ k, k ≤ b.asSlice.length ∧ rest' = b.asSlice.drop k ∧ cur' = b.index + k) →
-      parse1Unchecked e sub isEnd start (b.slc.length + 1) { b with index := cur' } v' =
-        conv b (ParseInt.parse1Unchecked e.t e.radix e.partial_ sub rest' v' cur') := by
-    intro rest' v' cur' ⟨k, _, h1, h2⟩
+    ∃ x, parseDigitsUnchecked e sub isEnd start b value =
+      conv { b with ic := x } (ParseInt.parseDigitsUnchecked e.t e.radix e.c.feats e.partial_ e.noMulti sub b.asSlice
+        b.index b.bufferLength value) := by
+  have tail : ∀ (x : Nat) (rest' : List Nat) (v' cur' : Nat),
+      (∃ k, k ≤ b.asSlice.length ∧ rest' = b.asSlice.drop k ∧ cur' = b.index + k) →
+      parse1Unchecked e sub isEnd start (b.slc.length + 1) { b with index := cur', ic := x } v' =
+        conv { b with ic := x } (ParseInt.parse1Unchecked e.t e.radix e.partial_ sub rest' v' cur') := by
+    intro x rest' v' cur' ⟨k, _, h1, h2⟩
     rw [parse1Unchecked_simple e hs sub isEnd start _ _ _ (by simp only; omega)]
     simp only [h1, h2, Bytes.asSlice, List.drop_drop]
     cases ParseInt.parse1Unchecked e.t e.radix e.partial_ sub (List.drop (b.index + k) b.slc) v' (b.index + k) with
@@ -222,21 +229,21 @@ theorem parseDigitsUnchecked_simple (e : Env) (hs : Simple e.c) (sub isEnd : Boo
   by_cases h8 : (ParseInt.canMulti e.c.feats e.radix && !e.noMulti && decide (e.t.bits ≥ 64) && decide (b.bufferLength ≥ 8)) = true
   · simp only [h8, if_true]
     cases hl : ParseInt.loop8 e.t e.radix sub b.asSlice value b.index with
-    | error m => simp [conv]
+    | error m => exact ⟨b.ic, by simp [conv]⟩
     | ok r =>
       obtain ⟨rest', v', cur'⟩ := r
       simp only
-      exact tail rest' v' cur' (loop8_ok _ _ _ _ _ _ _ _ _ hl)
+      exact ⟨_, tail _ rest' v' cur' (loop8_ok _ _ _ _ _ _ _ _ _ hl)⟩
   · simp only [h8, if_false]
     by_cases h4 : (ParseInt.canMulti e.c.feats e.radix && !e.noMulti && decide (e.t.bits = 32) && decide (b.bufferLength ≥ 4)) = true
     · simp only [h4, if_true]
       cases hl : ParseInt.loop4 e.t e.radix sub b.asSlice value b.index with
-      | error m => simp [conv]
+      | error m => exact ⟨b.ic, by simp [conv]⟩
       | ok r =>
         obtain ⟨rest', v', cur'⟩ := r
-        exact tail rest' v' cur' (loop4_ok _ _ _ _ _ _ _ _ _ hl)
+        exact ⟨_, tail _ rest' v' cur' (loop4_ok _ _ _ _ _ _ _ _ _ hl)⟩
     · simp only [h4, if_false]
-      exact tail b.asSlice value b.index ⟨0, by omega, by simp, by omega⟩
+      exact ⟨_, tail _ b.asSlice value b.index ⟨0, by omega, by simp, by omega⟩⟩
 
 theorem parseDigitsChecked_simple (e : Env) (hs : Simple e.c) (sub : Bool) (start : Nat) (b : Bytes) (value od : Nat) :
     parseDigitsChecked e sub start b value od =
@@ -248,7 +255,9 @@ theorem parseDigitsChecked_simple (e : Env) (hs : Simple e.c) (sub : Bool) (star
   · have hle : b.index ≤ min b.slc.length (od + b.index) := Nat.le_of_not_lt hlt
     have h2 : ¬ b.slc.length < min b.slc.length (od + b.index) := by omega
     simp only [hlt, if_false, h2]
-    rw [parseDigitsUnchecked_simple e hs]
+    obtain ⟨x, hx⟩ := parseDigitsUnchecked_simple e hs sub false start
+      ⟨b.slc.take (min b.slc.length (od + b.index)), b.index, 0, 0, 0⟩ value
+    rw [hx]
     have hs1 : (⟨b.slc.take (min b.slc.length (od + b.index)), b.index, 0, 0, 0⟩ : Bytes).asSlice =
         b.asSlice.take (min b.slc.length (od + b.index) - b.index) := by
       simp only [Bytes.asSlice, List.drop_take]
@@ -337,13 +346,13 @@ theorem digitsPhase_simple (e : Env) (hs : Simple e.c) (isNeg : Bool) (b : Bytes
       ofM (LexVerif.Proof.ParseInt.body e.c.feats e.t e.radix e.partial_ e.noMulti isNeg b.asSlice b.index b.slc.length) := by
   have hlen : b.index + b.asSlice.length = b.slc.length := by simp only [Bytes.asSlice, List.length_drop]; omega
   simp only [digitsPhase, hs.hd, Bool.false_and, Bool.false_eq_true, if_false, LexVerif.Proof.ParseInt.body]
-  have fin : ∀ (st : ParseInt.Flow (Nat × Nat)), (∀ v c, st = .ok (v, c) → c = b.slc.length) →
-      (match (match conv b st with
+  have fin : ∀ (x : Nat) (st : ParseInt.Flow (Nat × Nat)), (∀ v c, st = .ok (v, c) → c = b.slc.length) →
+      (match (match conv { b with ic := x } st with
               | .error r => .error r
               | .ok (b, value) => .ok (intoOk e value b.bufferLength (b.iterCount e.c .integer)) : Flow Res) with
        | .ok r => r | .error r => r) =
       ofM (match st with | .error m => m | .ok (value, _) => ParseInt.intoOk e.t value b.slc.length) := by
-    intro st hst
+    intro x st hst
     cases st with
     | error m => simp [conv]
     | ok r =>
@@ -356,7 +365,8 @@ theorem digitsPhase_simple (e : Env) (hs : Simple e.c) (isNeg : Bool) (b : Bytes
     cases isNeg with
     | true =>
       simp only [Bool.and_self, if_true]
-      rw [parseDigitsUnchecked_simple e hs]
+      obtain ⟨x1, hx1⟩ := parseDigitsUnchecked_simple e hs true true start b 0
+      rw [hx1]
       simp only [Bytes.bufferLength]
       cases hu : ParseInt.parseDigitsUnchecked e.t e.radix e.c.feats e.partial_ e.noMulti true b.asSlice b.index
           b.slc.length 0 with
@@ -365,11 +375,12 @@ theorem digitsPhase_simple (e : Env) (hs : Simple e.c) (isNeg : Bool) (b : Bytes
         obtain ⟨v1, cur1⟩ := r
         have hc1 := pdu_ok _ _ _ _ _ _ _ _ _ _ _ _ hu
         simp only [conv]
-        rw [parseDigitsUnchecked_simple e hs]
-        have hnil : (⟨b.slc, cur1, b.ic, b.fc, b.ec⟩ : Bytes).asSlice = [] := by
+        obtain ⟨x2, hx2⟩ := parseDigitsUnchecked_simple e hs false true start ⟨b.slc, cur1, x1, b.fc, b.ec⟩ v1
+        rw [hx2]
+        have hnil : (⟨b.slc, cur1, x1, b.fc, b.ec⟩ : Bytes).asSlice = [] := by
           simp only [Bytes.asSlice]; apply List.drop_eq_nil_of_le; omega
         simp only [hnil, Bytes.bufferLength]
-        have := fin (ParseInt.parseDigitsUnchecked e.t e.radix e.c.feats e.partial_ e.noMulti false [] cur1
+        have := fin x2 (ParseInt.parseDigitsUnchecked e.t e.radix e.c.feats e.partial_ e.noMulti false [] cur1
           b.slc.length v1) (by
             intro v c hvc
             have := pdu_ok _ _ _ _ _ _ _ _ _ _ _ _ hvc
@@ -378,22 +389,23 @@ theorem digitsPhase_simple (e : Env) (hs : Simple e.c) (isNeg : Bool) (b : Bytes
         exact this
     | false =>
       simp only [Bool.and_false, Bool.false_eq_true, if_false, if_true]
-      rw [parseDigitsUnchecked_simple e hs]
-      exact fin _ (by intro v c hvc; have := pdu_ok _ _ _ _ _ _ _ _ _ _ _ _ hvc; omega)
+      obtain ⟨x1, hx1⟩ := parseDigitsUnchecked_simple e hs false true start b 0
+      rw [hx1]
+      exact fin x1 _ (by intro v c hvc; have := pdu_ok _ _ _ _ _ _ _ _ _ _ _ _ hvc; omega)
   | false =>
     simp only [Bool.false_and, Bool.false_eq_true, if_false]
     cases isNeg with
     | true =>
       simp only [if_true]
       rw [parseDigitsChecked_simple e hs]
-      exact fin _ (by
+      exact fin b.ic _ (by
         intro v c hvc
         simp only [Bytes.bufferLength] at hvc
         have := pdc_ok _ _ _ _ _ _ _ _ _ _ _ _ (by rw [hlen]; exact hvc); omega)
     | false =>
       simp only [Bool.false_eq_true, if_false]
       rw [parseDigitsChecked_simple e hs]
-      exact fin _ (by
+      exact fin b.ic _ (by
         intro v c hvc
         simp only [Bytes.bufferLength] at hvc
         have := pdc_ok _ _ _ _ _ _ _ _ _ _ _ _ (by rw [hlen]; exact hvc); omega)
